@@ -174,10 +174,14 @@ fn block(b: &Block, v: &Variant, after_para: bool) -> Vec<String> {
         }
         "Rule" => vec![v.rule.to_string()],
         "Html" => b.x.trim_end_matches('\n').split('\n').map(|s| s.to_string()).collect(),
-        "Q" => blocks(&b.c, v, false)
-            .into_iter()
-            .map(|l| if l.is_empty() { ">".to_string() } else { format!("> {}", l) })
-            .collect(),
+        "Q" => {
+            let inner: Vec<String> = blocks(&b.c, v, false)
+                .into_iter()
+                .map(|l| if l.is_empty() { ">".to_string() } else { format!("> {}", l) })
+                .collect();
+            // an empty quote is a line holding only the marker
+            if inner.is_empty() { vec![">".to_string()] } else { inner }
+        }
         "BL" | "OL" => {
             let mut out = vec![];
             for (n, item) in b.items.iter().enumerate() {
